@@ -3,13 +3,15 @@ C05 - equality, hashing and copying of CIM objects are lawful.
 
 Spec:   CimEq.tla   requirement: abstract object trees, four-valued AbsEq,
                     AbsHashClass, MustIndep (documented copy depth), Fails()
-        CimEqU.tla  bounded universe (11 kinds; 2 names x 2 cases; None/v1/v2)
+        CimEqU.tla  bounded universe (11 kinds; 2 names x 2 cases + the
+                    special-fold name class n6/n6s; None/v1/v2; empty arrays;
+                    None-valued dictionary items)
         CimEqImpl.tla + CimEqMC.tla  code-shaped __eq__/__hash__ (and-chains,
                     _eq_name/_eq_item/_eq_dict, NocaseDict.__eq__, frozenset
                     hash) checked by TLC against AbsEq on ALL same-kind pairs;
-                    three regression configurations must fail
+                    five regression configurations must fail
         CimEqHeap.tla  heap state machine Copy / copy.copy / deepcopy /
-                    pickle / Mutate with Independence + Tight; two regression
+                    pickle / Mutate with Independence + Tight; three regression
                     configurations must fail
         CimEqGen.tla   TLC prints the universe, the near pairs and the
                     classes of the coarsest admissible ==
@@ -112,11 +114,11 @@ def builder(node, seed):
 
 
 def walker_events(node, seed, methods=None, origin="walk", maxcells=None,
-                  rng=None):
+                  rng=None, proto=None):
     """copy every way, then mutate every reachable cell of the copy (each
     mutation on a fresh original/copy pair).  One event per cell."""
     build = builder(node, seed)
-    proto = build()
+    proto = proto if proto is not None else build()
     out = []
     allcells = H.cells(proto)
     if maxcells is not None and len(allcells) > maxcells and rng is not None:
@@ -167,15 +169,26 @@ def run(ctx):
                      ("ImplAgrees", "ImplIgnoresCaseAndOrder",
                       "ImplIsKernel"),
                      "NocaseDict.__eq__ positional", sens)
+    check_regression(ctx, "CimEqMC", "CimEqMCRegFold.cfg",
+                     ("ImplEqImpliesHash",),
+                     "_eq_name with casefold(), _hash_name with lower()", sens)
+    check_regression(ctx, "CimEqMC", "CimEqMCRegGet.cfg",
+                     ("ImplSymmetric", "ImplEqImpliesHash"),
+                     "NocaseDict.__eq__ looks keys up with other.get(key)",
+                     sens)
     ctx.tlc("CimEqHeap", "CimEqHeap.cfg", coverage=False,
             label="heap model: copy()/copy.copy/deepcopy/pickle + <=2 "
-            "mutations, Independence + Tight for 12 object graphs")
+            "mutations, Independence + Tight for 16 object graphs")
     check_regression(ctx, "CimEqHeap", "CimEqHeapRegDict.cfg",
                      ("Independence",), "copy() shares the child dictionary",
                      sens)
     check_regression(ctx, "CimEqHeap", "CimEqHeapRegPath.cfg",
                      ("Independence",), "CIMInstance.copy() shares the path",
                      sens)
+    check_regression(ctx, "CimEqHeap", "CimEqHeapRegEmpty.cfg",
+                     ("Independence",),
+                     "copy() shares an EMPTY array value (cimvalue returns "
+                     "the empty list itself)", sens)
     ctx.extra["sensitivity"] = sens
 
     # ---- 2. abstract inputs from TLC --------------------------------------
@@ -187,6 +200,9 @@ def run(ctx):
         objs[v[1]][v[2]] = tlc_value_to_node(v[3])
     near = [(v[1], v[2], v[3], v[4]) for v in rg.printed("NEAR")]
     classes = [(v[1], vlib.unset(v[2])) for v in rg.printed("CLS")]
+    shapes = {}
+    for v in rg.printed("SHAPE"):
+        shapes.setdefault((v[1], tuple(v[3])), []).append(v[2])
     nobj = sum(len(x) for x in objs.values())
     if nobj == 0 or not near:
         raise vlib.MachineryError("CimEqGen printed no universe")
@@ -202,6 +218,7 @@ def run(ctx):
     ctx.extra["tlc_near_pairs_by_AbsEq"] = {
         c: sum(1 for x in near if x[3] == c) for c in "TFUX"}
     ctx.extra["tlc_eq_classes"] = len(classes)
+    ctx.extra["tlc_copy_shape_classes"] = len(shapes)
     ctx.extra["tlc_heap_behaviours"] = len(behs)
 
     pairs, triples, copies = [], [], []
@@ -253,12 +270,35 @@ def run(ctx):
         if out:
             add_triple(objs[k][rng.choice(cl)], objs[k][rng.choice(cl)],
                        objs[k][rng.choice(out)], "universe:class+outsider")
+    walked = set()
     for k in KINDS:
         ids = sorted(objs[k])
-        take = ids if not quick else rng.sample(ids, max(4, len(ids) // 6))
+        take = ids if not quick else rng.sample(ids, max(4, len(ids) // 8))
         for i in take:
+            walked.add((k, i))
             copies += walker_events(objs[k][i], rng.randrange(10 ** 9),
                                     origin="universe:copy")
+    # at least one object of every (kind, cell structure) class printed by
+    # TLC is copied every way and mutated in every cell; preferably one whose
+    # state the constructor reproduces (so that .copy() is exercised too)
+    for (k, _shape), ids in sorted(shapes.items()):
+        ids = sorted(ids)
+        rng.shuffle(ids)
+        chosen = None
+        for i in ids[:12]:
+            seed = rng.randrange(10 ** 9)
+            proto = builder(objs[k][i], seed)()
+            if not hasattr(proto, "copy") or H.ctor_stable(proto):
+                chosen = (i, seed, proto)
+                break
+            if chosen is None:
+                chosen = (i, seed, proto)
+        i, seed, proto = chosen
+        if (k, i) in walked and \
+                (not hasattr(proto, "copy") or H.ctor_stable(proto)):
+            continue
+        copies += walker_events(objs[k][i], seed, origin="universe:shape",
+                                proto=proto)
 
     # ---- 4. heap behaviours from TLC --------------------------------------
     for b in behs:
@@ -301,6 +341,10 @@ def run(ctx):
                     add_pair(g.reorder(n), g.recase(mu), "rich:mutate1")
                     add_triple(n, rc, mu, "rich:mutate1")
             add_pair(n, g.make(k), "rich:other")
+            fp = g.foldpair(n)
+            if fp is not None:
+                add_pair(fp[0], fp[1], "rich:foldswap")
+                add_triple(g.recase(fp[0]), fp[0], fp[1], "rich:foldswap")
             if i < nwalk and k != "DateTime":
                 copies += walker_events(n, rng.randrange(10 ** 9),
                                         origin="rich:copy", maxcells=8,
@@ -343,8 +387,9 @@ def run(ctx):
         "universe": "2 base names x 2 cases, optional names None|n1|n1'|n2, "
                     "attributes None|v1|v2 (flags None|True|False), <=2 "
                     "children in both orders, <=1 block deviating from 2 "
-                    "base assignments", "heap": "MaxRef=60, MaxMut=%d, 12 "
-                    "root graphs" % (1 if quick else 2)}
+                    "base assignments; + special-fold names n6/n6'/n6s one "
+                    "at a time, empty arrays, None-valued items",
+        "heap": "MaxRef=60, MaxMut=%d, 16 root graphs" % (1 if quick else 2)}
     for v in (pairs[:1] + pairs[len(pairs) // 2:len(pairs) // 2 + 1] +
               triples[:1] + copies[:1] + copies[-1:]):
         ctx.sample({"origin": v.origin, "event": slim(v.event)})
@@ -359,8 +404,12 @@ def run(ctx):
         "objects and reference values may be shared (documented or left open)",
         "scopes are generated with True entries only (False vs absent is not "
         "decided by the statement)",
-        "names come from 7 bases with 1-4 spellings (ASCII + one accented); "
-        "case folding beyond str.lower() (e.g. sharp s) is not exercised",
+        "names come from 9 bases with 1-4 spellings (ASCII, one accented, "
+        "sharp s); spellings equal under str.lower() must not be "
+        "distinguished; spellings equal only under full case folding "
+        "('Straße'/'STRASSE') may be equal or not (U) but every law binds the "
+        "answer given",
+        "NULL key values are built with config.IGNORE_NULL_KEY_VALUE = True",
         "projection reads public attributes through the getters; private "
         "state that no public attribute exposes is invisible",
     ]
